@@ -106,7 +106,7 @@ def gen(tier, seed, info):
                                 "reset); every ordered pair of sample values per attribute; palette layer: all 256 indices "
                                 "at 8 and 16 colours for fg and bg, set and change, repeated")
     # 5. random histories
-    n = 5000 if quick else 300000
+    n = 5000 if quick else 800000
     for _ in range(n):
         malformed = rnd.random() < 0.05
         ops = " ".join("%s:%s" % (rnd.choice("sc"), rand_pen(rnd, malformed)) for _ in range(rnd.randint(1, 8)))
